@@ -15,6 +15,14 @@ CHECKS = {
             'independent reader, reloaded, re-dumped and compared bytewise, and probes are formatted under c and D(c).',
             'Trusts the option list/ranges reported by the binary (--universalindent) as the domain; multi-option interactions '
             'are sampled, not exhausted.', 'DESIGN.md §3 C15'),
+    'C16': ('exploration', 'exhaustive option x defect-class enumeration + random/mutated config text on the ASan+UBSan binary; '
+            'differential oracle (dump with vs without the bad line) + diagnostic predicate',
+            'Every non-string option receives every class of bad value (below/above range, overflow, wrong type, foreign enum '
+            'word, incompatible and dangling reference) inside a seeded good config; the dump must equal the dump without the '
+            'line and stderr must name file:line and the option; malformed syntax forms, include cycles, `using` forms, nl_max '
+            'conflicts for every blank-line count option and thousands of random/mutated config texts must not crash or hang.',
+            'Domain (options, ranges, documentation groups) is read from the binary under test; random text is sampled; hangs '
+            'are decided by a 20 s CPU limit.', 'DESIGN.md §3 C16'),
 }
 
 ALL = ['C%02d' % i for i in range(1, 21)]
